@@ -1,6 +1,9 @@
 import NLV.Props.C09
 #print axioms NLV.C09.stream_wf
 #print axioms NLV.C09.numbers_unique_increasing
+#print axioms NLV.C09.numbers_drawn_in_order
+#print axioms NLV.C09.stream_order_is_not_number_order
 #print axioms NLV.C09.output_monotone
+#print axioms NLV.C09.hidden_silent
 #print axioms NLV.C09.abort_unwinds
 #print axioms NLV.C09.every_event_has_run_no
